@@ -79,6 +79,13 @@ def run(tier, seed, replay=None):
                                       "pre_newlines": pre if mode == "psync" else pre + mid, "mid_newlines": mid if mode == "psync" else 0, "status_case": case,
                                       "frags": fr, "pause_us": rnd.choice([50, 300]), "offset": rnd.choice([0, 1, 1000, 2 ** 40]),
                                       "read_max": rnd.choice([1, 17, 4096, 65536])})
+        # the source hangs up some way into the command stream: the tool must come back with the announced run id for the next byte
+        for j in range(24 if thorough else 5):
+            cid += 1
+            slen = rnd.choice([300, 9000])
+            cases.append({"id": cid, "mode": "psync", "n": rnd.choice([1, 100, 8192, 20000]), "stream_len": slen, "pre_newlines": rnd.choice([0, 1]), "mid_newlines": rnd.choice([0, 2]),
+                          "status_case": rnd.choice([0, 1, 2]), "frags": rnd.choice([[], [7], [4096]]), "pause_us": 50, "offset": rnd.choice([0, 1000, 2 ** 40]),
+                          "read_max": 4096, "drop_at": rnd.choice([1, slen // 2, slen - 1])})
         trace = sc.path("trace.ndjson")
         rc, out, err = vlib.run_vdrv(["handoff"], stdin=json.dumps({"seed": seed, "cases": cases, "trace": trace, "dir": sc.dir}), timeout=3000)
         if rc != 0:
@@ -93,7 +100,7 @@ def run(tier, seed, replay=None):
         for ln in [int(x) for x in re.findall(r'<<"REJECT", (\d+)>>', rt.out)]:
             ev = rows[ln - 1]
             c = byid[ev["case"]]
-            sym = "hang" if ev.get("hung") else "abort" if ev["abort"] or ev["panic"] else ("announced-values" if (ev["n_reported"] != ev["n"] or not ev["runid_ok"] or ev["offset_used"] != ev["announced_offset"] or not ev["full"])
+            sym = "hang" if ev.get("hung") else "abort" if ev["abort"] or ev["panic"] else ("announced-values" if (ev["n_reported"] != ev["n"] or not ev["runid_ok"] or ev["offset_used"] != ev["announced_offset"] or not ev["full"] or not ev.get("re_runid_ok", True) or not ev.get("re_off_ok", True))
                                                                else ("file" if ev["mode"] == "dump" and (ev["file_diff"] != -1 or ev["file_len"] != ev["n"]) else "bytes"))
             verdict.violation({"kind": "handoff", "mode": ev["mode"], "symptom": sym},
                               "hand-off differs from what the source sent: %s" % {k: v for k, v in ev.items() if k not in ("seq",)},
